@@ -174,6 +174,7 @@ def search(qualname, n, seed, label_filter=None):
     rng = random.Random(seed)
     stats = dict(qualname=qualname, cases=0, checked=0, skipped_pre=0, failures=[], not_native=set(), raised=0)
     t0 = time.time()
+    per_key = {}
     for idx in range(n):
         case_rng = random.Random(rng.getrandbits(48))
         args = gen(case_rng)
@@ -187,9 +188,14 @@ def search(qualname, n, seed, label_filter=None):
         stats['raised'] += 1 if r.get('raised') else 0
         stats['not_native'].update(r.get('skipped', []))
         if r['status'] == 'fail':
-            stats['failures'].append(dict(index=idx, seed=seed, args=shown, failed=r['failed'],
-                                          exc=r.get('exc'), result=r.get('result')))
-            if len(stats['failures']) >= 3:
+            # at most three inputs per distinct set of failed clauses, and the search goes on: a clause that fails on every
+            # input (a listed open finding) must not hide a different clause that fails on rare inputs only
+            key = tuple(sorted(r['failed']))
+            per_key[key] = per_key.get(key, 0) + 1
+            if per_key[key] <= 3:
+                stats['failures'].append(dict(index=idx, seed=seed, args=shown if len(str(shown)) < 20000 else str(shown)[:2000] + ' ...', failed=r['failed'],
+                                              exc=r.get('exc'), result=r.get('result')))
+            if len(per_key) >= 6:
                 break
     stats['not_native'] = sorted(stats['not_native'])
     stats['wall_s'] = time.time() - t0
